@@ -62,7 +62,8 @@ claim('C10',
       'inherit_slashes, renderer resolution with render factories / rebind_render / explicit callables, error handling) as a '
       'transcription of SubApplication.bind_all + BoundRoute re-binding, and DEFINES nested behaviour as first-match dispatch over the '
       'flattened table. TLC checks algebraic facts of Flatten (no loss/duplication, order, outer handler, outer middlewares first, '
-      'unique once, explicit render wins, slash inheritance). Bound to the code: TLC-generated trees are built as real NESTED '
+      'unique once, explicit render wins, slash inheritance); the same application object may also be mounted into an unrelated parent '
+      'before/after (reuse) without effect on the chain. Bound to the code: TLC-generated trees are built as real NESTED '
       'applications and - from TLC\'s flat record - as real FLAT applications; per flat route two slash probes and a failing request '
       'are sent to both and compared with the spec (status, answering route, middleware trace, resource values, renderer, error handler) '
       'and app.routes patterns are compared with the flattened table.',
@@ -77,7 +78,9 @@ claim('C11',
       'Contiguous and invariant TablesSound over all histories within the bound. Bound to the code: TLC-generated histories of 8 '
       'operations over 3 applications are replayed against real objects; after EVERY operation, for EVERY live application, '
       'app.routes (Route identity + full pattern) and a probe response per entry are compared with the tables TLC computed; '
-      'shared Route objects are snapshotted and must not change; failing operations must raise, others must not.',
+      'shared Route objects (method-restricted, with route-level middlewares) are snapshotted and must not change, probes use DELETE / '
+      'POST / GET (a 405 must leave no trace), app.middlewares and every BoundRoute.bound_apps chain must stay what they were; failing '
+      'operations must raise, others must not.',
       'Trusted: TLC; probe matching of literal/single-binding patterns recomputed from the spec table; negative indices excluded.',
       'TLA+ spec (AppHistory.tla) + TLC exhaustive (action properties) + step-by-step replay of TLC-generated histories',
       'DESIGN.md 3/C11')
@@ -131,7 +134,10 @@ claim('C15',
       'the conformance leg. Differential replay: the scenario application (Responses incl. 100 kB compressible / random / empty, rendered '
       'contexts, HEAD, redirect, raised/returned 4xx/5xx, non-breaking error, uncaught exception, unknown URL, wrong method) is built with '
       'and without each stack; every scenario x Accept-Encoding class is sent to both, bodies are gunzipped, and TLC judges each record '
-      '(status equal, decoded body equal, Content-Encoding/Content-Length/Vary rules; BuiltinMw_Trace).',
+      '(status equal, decoded body equal, Content-Encoding/Content-Length/Vary rules; BuiltinMw_Trace). Further scenarios: a payload the '
+      'application pre-compressed, clients presenting malformed / foreign cookies, a stats middleware with full reservoirs over hundreds '
+      'of requests. The check also hosts two non-gating legs beyond the listed properties (ParamMw.tla, CacheReval.tla: what the '
+      'parameter/context/cache middlewares are for; outcome in notes.beyond_property, never a VIOLATION).',
       'Trusted: TLC; the stdlib gzip decoder; the traceback depth printed in the default 500 body is normalised (a middleware adds frames); '
       'parameter extractors are given one parameter name, profiler without trigger.',
       'TLA+ spec (BuiltinMw.tla) + TLC exhaustive + differential replay with record validation (BuiltinMw_Trace.tla); gzip round trip projection-decided',
@@ -241,10 +247,12 @@ claim('C05',
 claim('C06',
       'TLC model-checks Dispatch.tla: the dispatch loop (one action per branch of Application.dispatch, DispatchState as '
       'variables) is proved equal to the declarative Answer() - first match in add() order, method admission incl. HEAD-via-GET '
-      'and case-insensitivity, non-breaking fall-through, 404/405 with exact Allow - for every table, add history and request '
+      'and case-insensitivity, non-breaking fall-through, 404/405 with exact Allow, and the slash redirect of branch routes (issued only '
+      'after the method check: RedirectOnlyIfAdmitted) - for every table, add history and request '
       'within the bound (exhaustive <= 2-3 routes, simulation <= 4). Bound to the code: TLC-emitted add() histories are replayed '
-      'into real Applications and all 42 catalogue requests compared with Answer(); random larger tables over generated '
-      'patterns are recorded and validated by TLC (Dispatch_Trace).',
+      'into real Applications (route methods spelled in upper / lower / title case) and all 54 catalogue requests are sent to ONE '
+      'application per table (so state leaking from one request into the next shows) and compared with Answer(); random larger tables '
+      'over generated patterns are recorded and validated by TLC (Dispatch_Trace).',
       'Trusted: TLC; werkzeug test client; marker extraction from bodies; Allow compared modulo implicit HEAD. Patterns restricted '
       'to the untyped segment semantics of PathMatch.tla (types and slashes are C05/C07).',
       'TLA+ spec (Dispatch.tla) + TLC exhaustive/simulation + replay of TLC behaviours + record validation (Dispatch_Trace.tla)',
